@@ -9,7 +9,7 @@ import optax
 import z3
 from jax import random as jr
 
-from jaxsmt import concrete, core
+from jaxsmt import concrete, core, solve
 from jaxsmt.core import Check, conj, eq_arr, eq_elem
 from jaxsmt.harness import UFACPolicy, UFEnv
 from jaxsmt.interp import Interp, arr0
@@ -115,7 +115,10 @@ def check_step(ck, kind, limited, C=2):
     prove("row.done", {"state_buffer_dones": ring(B("dones"), R["done"])})
     prove("row.timeout", {"state_buffer_timeouts": ring(B("timeouts"), R["timeout"])})
     prove("row.policy_states", {"state_buffer_states_h": ring(B("states_h"), R["h"]), "state_buffer_next_states_h": ring(B("next_states_h"), R["h2"])})
-    prove("row.position_plus_one", {"state_buffer_position": o.add(p, 1)})
+    # the buffer's counter accounts for exactly one more transition: same ring slot and stored count as p + 1 (whether the counter is the exact
+    # number of insertions or a folded representative is the buffer's business, C06)
+    ck.prove(f"row.counter_accounts_for_one_more@{name}", A, counter_link(out["state_buffer_position"], arr0(p + 1), C),
+             replay=rp_counter(tr, S, it, "state_buffer_position", arr0(p + 1), C))
     sname = "state_env_state_env_state_s" if limited else "state_env_state_s"
     st_or = {sname: R["next_s"], "state_policy_state_h": R["next_h"]}
     if limited:
@@ -152,7 +155,7 @@ def check_schedule(ck):
         cap = Bsz if E == 1 else Bsz // E
         shape_ok = tuple(out["rewards"].shape) == ((cap,) if E == 1 else (E, cap)) and tuple(pos.shape) == (() if E == 1 else (E,))
         ck.fact(f"buffers.per_env_capacity@{cfg}", shape_ok, f"rewards {out['rewards'].shape}, position {pos.shape}; expected capacity {cap} per environment")
-        ck.prove(f"warmup.count@{cfg}", [], eq_arr(pos, want), replay=lambda res, tr=tr, S=S, it=it, want=want: concrete.replay_outputs(tr, S, res, uf_apps=it.uf_apps, oracle={"position": want}))
+        ck.prove(f"warmup.count@{cfg}", [], counter_link(pos, want, cap), replay=rp_counter(tr, S, it, "position", want, cap))
         # number of warm-up transitions == number of environment transitions executed per env
         nT = len({tuple(x.get_id() for x in ops) for nm, oi, idx, ops, t in it.uf_apps if nm == "T"})
         ck.fact(f"warmup.transitions_executed@{cfg}", nT == L * E, f"{nT} distinct transition applications for learning_starts={L}, envs={E}")
@@ -165,15 +168,39 @@ def check_schedule(ck):
         o2 = tr2.run(it2, S2)
         p0 = S2["st_step_state_buffer_position"]
         want2 = np.array([it2.o.add(x, n) for x in p0.reshape(-1)], dtype=object).reshape(p0.shape)
-        ck.prove(f"iter.adds_num_steps@{cfg}", [], eq_arr(o2["position"], want2),
-                 replay=lambda res, tr2=tr2, S2=S2, it2=it2, want2=want2: concrete.replay_outputs(tr2, S2, res, uf_apps=it2.uf_apps, oracle={"position": want2}))
+        ck.prove(f"iter.adds_num_steps@{cfg}", [x >= 0 for x in p0.reshape(-1)], counter_link(o2["position"], want2, cap), replay=rp_counter(tr2, S2, it2, "position", want2, cap))
+        nT2 = len({tuple(x.get_id() for x in ops) for nm, oi, idx, ops, t in it2.uf_apps if nm == "T"})
+        ck.fact(f"iter.transitions_executed@{cfg}", nT2 == n * E, f"{nT2} distinct transition applications for num_steps={n}, envs={E}")
+
+
+def counter_link(pos, want, cap):
+    """the buffer counter(s) `pos` account for `want` insertions: non-negative, same ring slot (mod capacity) and same number of stored transitions"""
+    cs = []
+    for g, w_ in zip(np.asarray(pos, dtype=object).reshape(-1), np.asarray(want, dtype=object).reshape(-1)):
+        mn = lambda a: z3.If(a <= cap, a, cap) if isinstance(a, z3.ExprRef) else min(a, cap)
+        cs += [g >= 0, g % cap == w_ % cap, mn(g) == mn(w_)]
+    return conj(cs)
+
+
+def rp_counter(tr, S, it, pos_name, want, cap):
+    def rp(res):
+        keys = concrete.KeyBinding(res)
+        w = concrete.ModelWorld(res, it.uf_apps, keys)
+        vals = [concrete.model_leaf(res, S[n], av, keys) for n, av in zip(tr.in_names, tr.in_avals)]
+        real = dict(zip(tr.out_names, concrete.run_real(tr, vals, w)))
+        got = [int(x) for x in np.asarray(real[pos_name]).reshape(-1)]
+        wv = [int(solve.num(res.value(t))) if isinstance(t, z3.ExprRef) else int(t) for t in np.asarray(want, dtype=object).reshape(-1)]
+        bad = [{"counter_after": g, "insertions_to_account_for": x} for g, x in zip(got, wv) if not (g >= 0 and g % cap == x % cap and min(g, cap) == min(x, cap))]
+        return bool(bad), {"function": tr.label, "capacity": cap, "counters_after_real_run": got, "insertions_to_account_for": wv, "failures": bad[:4],
+                           "inputs": {n: np.asarray(concrete.real_to_float(v) if hasattr(v, "dtype") else v).reshape(-1)[:8].tolist() for n, v in zip(tr.in_names, vals) if "position" in n}}
+    return rp
 
 
 def main():
     ck = Check("C05", "off-policy collection")
     ck.mode = "REAL"
     ck.bound(capacity=2, envs=[1, 2] if not ck.thorough else [1, 2, 3], learning_starts="<=2 (quick) / <=3 (thorough)", num_steps="<=2", obs_dim=2, state_dim=2,
-             actions=["Discrete(3)", "Box(2) with symbolic bounds"], position="symbolic integer >= 0 (int32 wrap outside the claim)")
+             actions=["Discrete(3)", "Box(2) with symbolic bounds"], position="symbolic integer >= 0 (the int32 side of the counter is C06 `machine.*`)")
     ck.stub("environment and behaviour policy uninterpreted (Init, T, O, R, Term, Trunc; PI, PReset)", "PRNG keys: free algebra", "callback: CallbackList([])",
             "a probe subclass of AbstractOffPolicyAlgorithm fills in only the abstract hooks (train is the identity)")
     ck.out("ring-buffer semantics beyond the inserted slot (C06)", "lane independence of vectorised collection (C12)", "float rounding")
